@@ -638,6 +638,10 @@ class HState:
         view0 = list(ms.view)  # no EXPUNGE can have been sent during a FETCH; EXISTS may have extended it
         empty_ok = mbm is not None and not mbm.msgs
         st = self._status("C06", ev, r, exp, refusal_ok or empty_ok)
+        if uid and r is not None and r.typ in ("NO", "BAD") and exp == ("OK",) and not (refusal_ok or empty_ok):
+            # the UID form of a FETCH is never refused for what the numbering is (UIDs that do not exist are skipped): a refusal
+            # means the UID table and the message list no longer correspond
+            self.fail("C03.uid-fetch-refused", {"set": ev["set"]}, "OK", r.raw.decode("latin-1").strip()[:160])
         if st == "refused" and exp == ("OK",):
             self._rollback(pre)
         if st == "ok" and tgt is not None:
